@@ -1,5 +1,5 @@
 """The table MANIFEST.json is generated from (tools/gen_manifest.py)."""
-HOOK_COMMITS = []
+HOOK_COMMITS = ["c4599b2"]
 NOTES = ("Model-based verification with an explicit TLA+ specification (spec/*.tla). Every check: TLC/Apalache on the "
          "model, then conformance of /repo's current working tree (harness/ is rebuilt with path deps on /repo). "
          "See DESIGN.md.")
@@ -45,5 +45,21 @@ CHECKS = {
                 "both diagnostic renderers are run on every span.",
         "note": "Bounded document length (quick 4, thorough 5 scalars); the code is two single loops over scalars with no "
                 "length-dependent branch. Terminal column (byte-based by construction) is recorded, not judged.",
+    },
+    "C18": {
+        "level": "model_checking",
+        "technique": "TLA+ spec Lsp (handlers as segments between awaits, tokio RwLock as FIFO queue): TLC exhaustive safety + "
+                     "liveness; transition-cover replay into the real server under a yield-point scheduler; recorded runs "
+                     "validated by TLC (LspTrace)",
+        "text": "Lsp.tla models every code segment between .await points of the open/change/close handlers, the framework's "
+                "start order and concurrency limit, and tokio's fair RwLock. TLC explores all client histories x all "
+                "interleavings in the bounded configs (safety, deadlock freedom, liveness) and confirms the regression "
+                "counterexamples on the as-originally-written variant. The real IncanLanguageServer is driven poll by poll "
+                "through cfg(incan_verif) yield points: one schedule per edge of the TLC state graph is replayed and the real "
+                "store / published diagnostics / handler positions compared with the model state; all runs (plus random "
+                "schedules) are completed and validated by TLC against LspTrace with every invariant evaluated in every state; "
+                "hover and completion are asked through the public protocol at quiescence.",
+        "note": "Interleavings are those at await boundaries that carry a yield point; bounded client histories (quick: 1 doc, "
+                "thorough: 1 doc x 4 versions, 2 docs x 2 versions); tokio lock fairness and tower-lsp start order as documented.",
     },
 }
